@@ -69,11 +69,19 @@ func runWSPool(x *X) {
 	shutdownAtEnd := c.Intn(3, "shutdown") != 0
 	x.Sample["config"] = fmt.Sprintf("max_idle=%d idle_timeout=%v backends=%v tasks=%d shutdown=%v", maxIdle, idleTimeout, backends, nTasks, shutdownAtEnd)
 	x.Logf("wspool %s", x.Sample["config"])
+	midShutdown := false
 	scripts := make([][]poolOp, nTasks)
 	for t := range scripts {
 		n := 2 + c.Intn(maxOps, "nops")
 		for i := 0; i < n; i++ {
 			op := poolOp{backend: backends[c.Intn(len(backends), "backend")]}
+			if !midShutdown && c.Intn(40, "mid-run-shutdown") == 0 {
+				// Shutdown in the middle of traffic (the balancer is stopped while sessions end):
+				// whatever a concurrent Get returns must still be open
+				midShutdown = true
+				scripts[t] = append(scripts[t], poolOp{kind: "shutdown"})
+				continue
+			}
 			switch c.Pick([]int{4, 4, 4, 2, 3, 1}, "op") {
 			case 0:
 				op.kind = "get"
@@ -175,6 +183,10 @@ func runWSPool(x *X) {
 				switch op.kind {
 				case "sleep":
 					TaskSleep(op.d)
+				case "shutdown":
+					x.Logf("t%d shutdown", tid)
+					x.Fault("pool-shutdown-during-traffic")
+					pool.Shutdown()
 				case "stats":
 					idle, _ := pool.Stats(op.backend)
 					if idle > maxIdle {
